@@ -283,6 +283,8 @@ pub fn mutate(root: &mut Tlv, kind: &str, n: usize, v: usize) -> bool {
             t.body = Body::Prim(c);
         }
         "int-huge" => { if t.utag() != Some(2) { return false } t.body = Body::Prim(vec![[0x01u8, 0x7f, 0xff][v % 3]; [21usize, 33, 5000][v % 3]]); }
+        // the largest values that still fit the field: 20 octets (serial numbers), 8 and 4 octets (counters, AS numbers)
+        "int-max" => { if t.utag() != Some(2) { return false } let mut c = vec![0xffu8; [20usize, 8, 5][v % 3]]; c[0] = if v % 3 == 2 { 0 } else { 0x7f }; t.body = Body::Prim(c); }
         "segment-string" => {
             // turn a primitive OCTET/BIT STRING into BER constructed (segmented) form, total size off by v-1
             // universal OCTET/BIT STRING, or an implicitly tagged primitive string (e.g. the [0] sid of a SignerInfo)
@@ -340,7 +342,7 @@ pub fn mutate(root: &mut Tlv, kind: &str, n: usize, v: usize) -> bool {
 }
 
 /// kinds that only make sense on nodes of particular types
-pub const TYPED_KINDS: &[&str] = &["int-huge", "segment-string", "bits-unused", "bool-odd", "oid-cont", "time-chars", "string-bytes"];
+pub const TYPED_KINDS: &[&str] = &["int-huge", "int-max", "segment-string", "bits-unused", "bool-odd", "oid-cont", "time-chars", "string-bytes"];
 
 /// preorder indices of the nodes a typed kind applies to
 pub fn eligible(root: &Tlv, kind: &str) -> Vec<usize> {
@@ -349,7 +351,7 @@ pub fn eligible(root: &Tlv, kind: &str) -> Vec<usize> {
     (0..total).filter(|n| {
         let t = r.node_mut(*n).unwrap();
         match kind {
-            "int-huge" => t.utag() == Some(2),
+            "int-huge" | "int-max" => t.utag() == Some(2),
             "segment-string" => matches!(t.utag(), Some(3 | 4)) || (!t.is_constructed() && t.id[0] & 0xc0 == 0x80),
             "bits-unused" => t.utag() == Some(3),
             "bool-odd" => t.utag() == Some(1),
@@ -384,6 +386,6 @@ pub fn representatives(root: &Tlv) -> Vec<usize> {
 pub const KINDS: &[&str] = &[
     "delete", "duplicate", "swap-next", "move-first", "splice-other", "tag-class", "tag-number", "tag-constructed", "tag-high",
     "len-nonminimal", "len-indefinite", "len-plus", "len-minus", "len-huge", "len-zero", "empty", "value-zero", "value-ff", "value-flip",
-    "value-trunc", "value-extend", "value-highbit", "value-leadzero", "int-huge", "segment-string", "bits-unused", "bool-odd", "oid-cont",
+    "value-trunc", "value-extend", "value-highbit", "value-leadzero", "int-huge", "int-max", "segment-string", "bits-unused", "bool-odd", "oid-cont",
     "time-chars", "string-bytes", "nest-deep",
 ];
